@@ -4,6 +4,7 @@ From Coq Require Import List Arith Bool.
 Import ListNotations.
 From KV Require Import Model.Triu Model.Placement Proofs.PlacementP.
 From KV Require Import Model.Coll Model.Kfac Model.KfacComm Proofs.KfacCommPlaceP.
+From KV Require Import Model.Bucket Proofs.BucketP Proofs.KfacCommBucketP.
 
 (* after a step, a rank holds second-order data for a layer iff it is a gradient worker of the layer *)
 Theorem sod_iff_grad_worker : forall c r l, wf_layer c l -> 0 < pp c ->
@@ -59,6 +60,15 @@ Theorem generator_silent_in_world_one : forall c cap ls who es, pW c = 1 -> pk c
   snd (crun c cap ls who [] es) = [].
 Proof. exact comm_world_one_l. Qed.
 
+(* with bucketing too: whatever the capacity, the fused allreduces issued from the first factor of an update up to and
+   including the flush that follows carry every factor element exactly once, and nothing stays pending (through the
+   conservation theorem of the bucket machine, C08) *)
+Theorem generator_factor_elements_once : forall c cp ns, pW c <> 1 ->
+  let '(bs1, o1) := fac_adds c (Some cp) [] ns in
+  let '(bs2, o2) := fac_flush (Some cp) bs1 in
+  osum (o1 ++ o2) = fold_right Nat.add 0 ns /\ pending bs2 = [].
+Proof. exact factor_elements_once_l. Qed.
+
 Theorem generator_columns_and_rows : forall c r ls i,
   (In i (inv_rank c r ls) -> ikind i = 2 /\ igrp i = g_col c (r mod pp c) /\ bcast_inv c = true) /\
   (In i (grad_rank c r ls) -> ikind i = 2 /\ igrp i = g_row c (r / pp c) /\ bcast_grad c = true).
@@ -74,3 +84,4 @@ Print Assumptions symmetric_numel.
 Print Assumptions only_inverse_worker_computes.
 Print Assumptions generator_silent_in_world_one.
 Print Assumptions generator_columns_and_rows.
+Print Assumptions generator_factor_elements_once.
